@@ -410,7 +410,11 @@ def extra_obligations():
     obs = []
     from contracts import C20
     registered = C20.registration_table()
-    for name in sorted(set(dispatched_functions()) | set(DISPATCH_UNREGISTERED_OK)):
+    try:
+        dispatched = dispatched_functions()
+    except extract.NotFound:
+        dispatched = []  # the ledger then reports the missing clauses as undecided
+    for name in sorted(set(dispatched) | set(DISPATCH_UNREGISTERED_OK)):
         ok = (name in registered) != (name in DISPATCH_UNREGISTERED_OK)
         ob = Obligation('C20/SI:Quantity.register/dispatch-coverage/%s' % name, [], z3.BoolVal(ok), 'ground', fn='SI:Quantity.register', clause='dispatch-coverage:' + name,
                         info={'registered': name in registered, 'reviewed_unregistered': DISPATCH_UNREGISTERED_OK.get(name)})
